@@ -94,7 +94,8 @@ sink_put_octet(Sink *sink, const unsigned char data)
 }
 
 static inline ssize_t
-source_adapt(ByteSource source, void *driver, void *buf, const size_t n)
+source_adapt(ByteSource source, void *driver, void *buf, const size_t n,
+             const bool atmost)
 {
     unsigned char *data = buf;
     size_t rest = n;
@@ -103,7 +104,9 @@ source_adapt(ByteSource source, void *driver, void *buf, const size_t n)
         if (rc == -EINTR || rc == -EAGAIN) {
             continue;
         } else if (rc < 0) {
-            return (ssize_t)rc;
+            /* With at-most semantics, octets that were read already must be
+             * accounted for; a persisting error shows again next time. */
+            return (atmost && rest < n) ? (ssize_t)(n - rest) : (ssize_t)rc;
         }
         rest -= rc;
     }
@@ -112,10 +115,10 @@ source_adapt(ByteSource source, void *driver, void *buf, const size_t n)
 }
 
 static inline ssize_t
-once_source_get_chunk(Source *source, void *buf, size_t n)
+once_source_get_chunk(Source *source, void *buf, size_t n, const bool atmost)
 {
     return source->kind == DATA_KIND_OCTET
-        ? source_adapt(source->source.octet, source->driver, buf, n)
+        ? source_adapt(source->source.octet, source->driver, buf, n, atmost)
         : source->source.chunk(source->driver, buf, n);
 }
 
@@ -130,7 +133,7 @@ source_get_chunk(Source *source, void *buf, size_t n)
     size_t rest = n;
     while (rest > 0) {
         const ssize_t get = once_source_get_chunk(source, data + (n - rest),
-                                                  rest);
+                                                  rest, false);
         if (get == -EINTR || get == -EAGAIN) {
             continue;
         } else if (get < 0) {
@@ -145,11 +148,12 @@ source_get_chunk(Source *source, void *buf, size_t n)
 ssize_t
 source_get_chunk_atmost(Source *source, void *buf, const size_t n)
 {
-    return once_source_get_chunk(source, buf, n);
+    return once_source_get_chunk(source, buf, n, true);
 }
 
 static inline ssize_t
-sink_adapt(ByteSink sink, void *driver, const void *buf, const size_t n)
+sink_adapt(ByteSink sink, void *driver, const void *buf, const size_t n,
+           const bool atmost)
 {
     const unsigned char *data = buf;
     size_t rest = n;
@@ -158,7 +162,8 @@ sink_adapt(ByteSink sink, void *driver, const void *buf, const size_t n)
         if (rc == -EINTR || rc == -EAGAIN) {
             continue;
         } else if (rc < 0) {
-            return (ssize_t)rc;
+            /* See source_adapt(). */
+            return (atmost && rest < n) ? (ssize_t)(n - rest) : (ssize_t)rc;
         }
         rest -= rc;
     }
@@ -167,10 +172,10 @@ sink_adapt(ByteSink sink, void *driver, const void *buf, const size_t n)
 }
 
 static inline ssize_t
-once_sink_put_chunk(Sink *sink, const void *buf, size_t n)
+once_sink_put_chunk(Sink *sink, const void *buf, size_t n, const bool atmost)
 {
     return sink->kind == DATA_KIND_OCTET
-        ? sink_adapt(sink->sink.octet, sink->driver, buf, n)
+        ? sink_adapt(sink->sink.octet, sink->driver, buf, n, atmost)
         : sink->sink.chunk(sink->driver, buf, n);
 }
 
@@ -185,7 +190,7 @@ sink_put_chunk(Sink *sink, const void *buf, size_t n)
     size_t rest = n;
     while (rest > 0) {
         const ssize_t put = once_sink_put_chunk(sink, data + (n - rest),
-                                                rest);
+                                                rest, false);
         if (put == -EINTR || put == -EAGAIN) {
             continue;
         } else if (put < 0) {
@@ -200,7 +205,7 @@ sink_put_chunk(Sink *sink, const void *buf, size_t n)
 ssize_t
 sink_put_chunk_atmost(Sink *sink, const void *buf, const size_t n)
 {
-    return once_sink_put_chunk(sink, buf, n);
+    return once_sink_put_chunk(sink, buf, n, true);
 }
 
 static inline bool
